@@ -353,6 +353,8 @@ def phase1(ctx, sd):
             ("C: overlapping patterns x constraints, <=3 flows", SPACE_C)]
     if T:
         runs.append(("A: patterns <=3 segments, <=2 flows", {"MaxPath": "3", "MaxFlows": "2"}))
+        runs.append(("D: patterns <=3 segments over one literal, <=3 flows",
+                     dict(SPACE_B, MaxFlows="3", FlowDomain="<- FlowsD", TxnDomain="<- TxnsD")))
         runs.append(("B: constraints, user flows, <=3 flows", dict(SPACE_B, MaxFlows="3", FlowDomain="<- FlowsB1U")))
     broken = [("O7 node-level requirement copy", dict(SPACE_B, KF_NodeReq="TRUE")),
               ("O8 AddFlow through the old Lookup", {"LookupMode": '"old"'}),
